@@ -168,6 +168,7 @@ func prepareHost(dir string) {
 	mustGit(dir, "branch", "bugs-triage")
 	mustGit(dir, "branch", "bugsquash")
 	mustGit(dir, "branch", "identities-old")
+	mustGit(dir, "worktree", "add", "-q", dir+"-linked", "-b", "linked") // a linked working tree (its .git is a file naming .git/worktrees/...)
 	hx.Must(os.WriteFile(filepath.Join(dir, "src", "main.c"), []byte("int main(){return 1;}\n"), 0o644)) // dirty
 	hx.Must(os.WriteFile(filepath.Join(dir, "staged.txt"), []byte("staged\n"), 0o644))
 	mustGit(dir, "add", "staged.txt")
@@ -282,7 +283,7 @@ func runSession(n int, seed uint64, gitbug string, steps int) []*Event {
 		k++
 		s.refreshBugs()
 		pick := func() string { return s.bugs[s.r.n(len(s.bugs))][:10] }
-		choice := s.r.n(16)
+		choice := s.r.n(17)
 		if len(s.bugs) == 0 {
 			choice = 0
 		}
@@ -459,6 +460,26 @@ func runSession(n int, seed uint64, gitbug string, steps int) []*Event {
 						}
 					}
 					_ = err
+				}
+				return "ok", 0
+			})
+		case 16:
+			// git-bug started from a linked working tree works on the repository itself: what it writes there is what stock git
+			// sees in the main working tree, and git's private directory of the linked tree gets nothing
+			s.step(s.a, "stock git sees what git-bug writes from a linked working tree", func() (string, int) {
+				before, _ := git(s.a, "for-each-ref", "--format=%(refname)", "refs/bugs/")
+				out, code := s.gb(s.a+"-linked", "bug", "new", "-t", fmt.Sprintf("from the linked tree %d", k), "-m", "message")
+				if code != 0 {
+					return "git-bug bug new in the linked working tree: " + out, 1
+				}
+				after, _ := git(s.a, "for-each-ref", "--format=%(refname)", "refs/bugs/")
+				if len(strings.Fields(after)) != len(strings.Fields(before))+1 {
+					return "the bug created from the linked working tree is not under refs/bugs of the repository", 1
+				}
+				for _, name := range []string{"git-bug", "refs/bugs", "refs/identities", "objects"} {
+					if _, err := os.Stat(filepath.Join(s.a, ".git", "worktrees", filepath.Base(s.a)+"-linked", name)); err == nil {
+						return "git-bug wrote " + name + " into git's private directory of the linked working tree", 1
+					}
 				}
 				return "ok", 0
 			})
